@@ -43,12 +43,15 @@ def run_schedule(dl, cap, acts):
 
     def queue_ids():
         out = []
+        by_fut = {}                      # future a task is suspended on -> job id (large populations: one pass)
+        for i, t in enumerate(tasks):
+            f = getattr(t, '_fut_waiter', None)
+            if f is not None:
+                by_fut[id(f)] = i
         for ev, w in sem.queue:
             who = -1
             for fut in ev._waiters:
-                for i, t in enumerate(tasks):
-                    if getattr(t, '_fut_waiter', None) is fut:
-                        who = i
+                who = by_fut.get(id(fut), who)
             out.append([who, w])
         return out
 
@@ -77,7 +80,8 @@ def run_schedule(dl, cap, acts):
             w_order = [i for i in entered if i in waited]
             if sorted(entered) != list(range(len(entered))) or w_order != sorted(w_order):
                 viol.append({'kind': 'fifo', 'at': n, 'entered': list(entered), 'waited': sorted(waited)})
-            blocked = [i for i, t in enumerate(tasks) if not t.done() and i not in entered]
+            entered_set = set(entered)
+            blocked = [i for i, t in enumerate(tasks) if not t.done() and i not in entered_set]
             if blocked:
                 h = min(blocked)
                 if weights[h] <= free:
